@@ -2,7 +2,7 @@ SPECIFICATION Spec
 CONSTANTS Times <- McTimes
  ExpChoices <- McExp
  OfferMenu <- McMenu
- MaxBlocks = 4
+ MaxBlocks = 3
  DupCheck = TRUE
  PayloadIdentity = TRUE
 INVARIANTS AtMostOnce InWindow ForkFree
